@@ -114,6 +114,10 @@ def run(tier, seed, only=None):
         ck.case((kind, alg, "singular" if ref.defect else "regular", meta["cov"], meta.get("subset"), meta["pattern"]))
         if i < 3 and kind == "adj" and alg == "envelope":
             ck.sample(dict(index=i, meta=meta, A_first_rows=P["A"][:2].tolist(), minx=P["minx"]))
+    if only is None:
+        from .. import netlevel
+        runner.build("san", targets=["gama-local"])
+        netlevel.solver_events_workload(ck, tier, seed, 30, 1000)
     ck.assumptions += ["numpy SVD/pinv on the original (A,b,C) is the reference",
                        "admitted problems: singular values split >=1e-3*smax / <=1e-12*smax, smin>=1e-2, smax<=1e4 "
                        "(gama's solvers use absolute pivot tolerances 1.5e-8 / 2.2e-11)"]
